@@ -142,11 +142,11 @@ func (m *urlModule) createURLSearchParamsPrototype() *goja.Object {
 
 		name := call.Argument(0).String()
 		isValid := func(v searchParam) bool {
-			if len(call.Arguments) == 1 {
+			arg := call.Argument(1)
+			if goja.IsUndefined(arg) {
 				return v.name != name
 			} else if v.name == name {
-				arg := call.Argument(1)
-				if !goja.IsUndefined(arg) && v.value == arg.String() {
+				if v.value == arg.String() {
 					return false
 				}
 			}
